@@ -4,11 +4,15 @@ package mercure
 
 import (
 	"encoding/binary"
+	"encoding/hex"
 	"encoding/json"
 	"net/http"
+	"strconv"
+	"strings"
 	"sync/atomic"
 	"time"
 
+	"github.com/golang-jwt/jwt/v5"
 	bolt "go.etcd.io/bbolt"
 )
 
@@ -187,3 +191,48 @@ func VerifBoltRaw(t *BoltTransport) (keys, values [][]byte) {
 
 // VerifBoltLastEventID exposes the in-memory lastEventID field.
 func VerifBoltLastEventID(t *BoltTransport) string { return t.lastEventID }
+
+// VerifDecodeClaims: `json.Unmarshal(payload, &claims{})` — what golang-jwt's ParseWithClaims does with the claims
+// segment — with the hub's own claims type, rendered canonically (before validateJWT's namespaced replacement).
+func VerifDecodeClaims(payload []byte) string {
+	var c claims
+	if err := json.Unmarshal(payload, &c); err != nil {
+		return "invalid"
+	}
+	optL := func(l []string) string {
+		if l == nil {
+			return "~"
+		}
+		if len(l) == 0 {
+			return "-"
+		}
+		p := make([]string, len(l))
+		for i, s := range l {
+			p[i] = hex.EncodeToString([]byte(s))
+		}
+
+		return strings.Join(p, ",")
+	}
+	showM := func(m *mercureClaim) string {
+		pay := ""
+		if m.Payload != nil {
+			b, _ := json.Marshal(m.Payload)
+			pay = string(b)
+		}
+
+		return optL(m.Publish) + "/" + optL(m.Subscribe) + "/" + hex.EncodeToString([]byte(pay))
+	}
+	showD := func(d *jwt.NumericDate) string {
+		if d == nil {
+			return "-"
+		}
+
+		return strconv.FormatInt(d.Unix(), 10)
+	}
+	ns := "~"
+	if c.MercureNamespaced != nil {
+		ns = showM(c.MercureNamespaced)
+	}
+
+	return "m=" + showM(&c.Mercure) + " ns=" + ns + " exp=" + showD(c.ExpiresAt) + " nbf=" + showD(c.NotBefore)
+}
